@@ -1,0 +1,16 @@
+// +build verif
+
+package driver
+
+import (
+	"github.com/alicebob/sqlittle"
+)
+
+// VerifStatement makes a Statement on an already opened DB (verification
+// hook, build tag `verif`), the same way Connection.Prepare() does.
+func VerifStatement(dbh *sqlittle.DB, query string) *Statement {
+	return &Statement{
+		dbh: dbh,
+		SQL: query,
+	}
+}
